@@ -363,6 +363,27 @@ theorem accept_key_rfc_sample :
       = [115, 51, 112, 80, 76, 77, 66, 105, 84, 120, 97, 81, 57, 107, 89, 71, 122, 122, 104, 90, 82, 98, 75, 43, 120, 79, 111, 61] := by
   decide +kernel
 
+/-- **The key the server hashes is the header's field value** (RFC 7230 §3.2: `field-name ":" OWS field-value
+    OWS`): for any header name and any non-empty value without blanks at its ends, with any number of
+    spaces/tabs — none included — after the colon and at the end of the line, the header line yields exactly
+    that value under the capitalised name.  (Repaired in c7d7110: the value used to be taken from two bytes
+    after the colon, so `Sec-WebSocket-Key:<key>` lost its first byte and the accept key was wrong.) -/
+theorem header_value_is_field_value (name ows1 v ows2 : List UInt8)
+    (hn : ∀ x ∈ name, x ≠ 58 ∧ isSp x = false)
+    (h1 : ∀ x ∈ ows1, isSp x = true) (h2 : ∀ x ∈ ows2, isSp x = true) (hv : v ≠ [])
+    (hv1 : ∀ x, v.head? = some x → isSp x = false) (hv2 : ∀ x, v.getLast? = some x → isSp x = false) :
+    headerField (name ++ [58] ++ ows1 ++ v ++ ows2) = some (capName true name, v) :=
+  headerField_ows name ows1 v ows2 hn h1 h2 hv hv1 hv2
+
+/-- the request of RFC 6455 §1.2 with **no** space after the colons (and one with three) is answered with
+    the RFC's accept key: the whole server handshake of the model, evaluated by the kernel -/
+theorem handshake_without_space_sample :
+    serverHandshake ("GET /chat HTTP/1.1\r\nHost:server.example.com\r\nUpgrade:websocket\r\nConnection:Upgrade\r\nSec-WebSocket-Key:dGhlIHNhbXBsZSBub25jZQ==\r\nSec-WebSocket-Version:13\r\n\r\n".toList.map (fun c => UInt8.ofNat c.toNat))
+      = serverResponse [100, 71, 104, 108, 73, 72, 78, 104, 98, 88, 66, 115, 90, 83, 66, 117, 98, 50, 53, 106, 90, 81, 61, 61] false ∧
+    serverHandshake ("GET /chat HTTP/1.1\r\nUpgrade:   websocket  \r\nConnection: keep-alive, Upgrade\r\nsec-websocket-key:   dGhlIHNhbXBsZSBub25jZQ==\t\r\n\r\n".toList.map (fun c => UInt8.ofNat c.toNat))
+      = serverResponse [100, 71, 104, 108, 73, 72, 78, 104, 98, 88, 66, 115, 90, 83, 66, 117, 98, 50, 53, 106, 90, 81, 61, 61] false := by
+  constructor <;> decide +kernel
+
 /-- the response is the status line and headers RFC 6455 §4.2.2 asks for
     (`HTTP/1.1 101 Switching Protocols`, `Upgrade: websocket`, `Connection: Upgrade`, `Sec-WebSocket-Accept: `),
     then the accept value, CRLF, optionally a protocol line, and the empty line -/
